@@ -183,3 +183,22 @@ package checker
 //@   ensures (normal || panics) ==> (c.path.$arr == old(c.path.$arr) || c.path.$arr > old(alloc))
 //@   loop 0 invariant forall k string :: dom(c.visited, k) <==> old(dom(c.visited, k))
 //@   loop 0 invariant c.path.$arr == old(c.path.$arr) || c.path.$arr > old(alloc)
+
+// ---- C08: "every rule ... applies to the kind of node it annotates": the
+// per-constraint kind compatibility predicate, evaluated for EVERY constraint of
+// the node (mixed nodes are exempt: their kind is not fixed) ----
+//@ func (checkSchema).checkCompatibilityOfConstraints$1(k, v)
+//@   props C08
+//@   requires isNode(node) && ctypeOf(v) >= 0
+//@   nopanic
+//@   ensures (result != nil) <==> (!compat(ctypeOf(v), jtypeOf(node)) && !isMixed && !isMixedValue)
+//@   ensures result != nil ==> errWF(result)
+
+//@ func (checkSchema).checkCompatibilityOfConstraints(node)
+//@   props C08
+//@   requires isNode(node) && consReady(node)
+//@   assumes forall i :: 0 <= i && i < len(consOf(node).order) ==> ctypeOf(consOf(node).data[consOf(node).order[i]]) >= 0
+//@   maypanic
+//@   ensures panics <==> (!typeis(node, *schema.MixedNode) && !typeis(node, *schema.MixedValueNode)
+//@           && (exists i :: 0 <= i && i < len(consOf(node).order) && !compat(ctypeOf(consOf(node).data[consOf(node).order[i]]), jtypeOf(node))))
+//@   ensures panics ==> errWF(pv)
